@@ -51,6 +51,8 @@ def build(target: str) -> Path:
                               flags=["-O2", "-fPIC", "-shared"], out="libraw_native.so"),
         "raw_tsan": dict(src=NATIVE / "raw_native.cc", deps=[CPP / "raw_io.cc", CPP / "raw_io.hh"],
                          flags=["-O1", "-g", "-fsanitize=thread", "-pthread", "-DRAW_TSAN_MAIN"], out="raw_tsan"),
+        "raw_cov": dict(src=NATIVE / "raw_native.cc", deps=[CPP / "raw_io.cc", CPP / "raw_io.hh"],
+                        flags=["-O0", "-g", "-fprofile-instr-generate", "-fcoverage-mapping", "-DRAW_DRIVER_MAIN"], out="raw_cov"),
         "root_driver": dict(src=NATIVE / "root_native.cc", deps=[CPP / "root_io.hh", UPROOT_CUSTOM_INC / "uproot-custom" / "uproot-custom.hh"],
                             flags=["-O1", "-g", *SAN], out="root_driver"),
     }
@@ -183,3 +185,49 @@ def result_to_py(res: dict) -> dict:
         else:
             out[k] = (np.array(v["offsets"], dtype=np.uint64).astype(np.uint32), np.array(v["data"], dtype=np.uint64).astype(np.uint32))
     return out
+
+
+def raw_cpp_coverage(buffers, timeout=900) -> dict:
+    """line / branch coverage of the working tree's raw_io.cc reached by `buffers` (list of (words, sel_mask)): how much of the parser the
+    generated inputs of a check actually exercise.  Uses a source-based-coverage build of the same driver (clang -fprofile-instr-generate)."""
+    import shutil
+    import tempfile
+    exe = build("raw_cov")
+    tmp = Path(tempfile.mkdtemp(prefix="rawcov-"))
+    try:
+        blob = bytearray()
+        for words, m in buffers:
+            w = np.asarray(words, dtype=np.uint32)
+            blob += struct.pack("<II", len(w), m) + w.tobytes()
+        env = dict(os.environ, LLVM_PROFILE_FILE=str(tmp / "raw-%p.profraw"))
+        start, runs = 0, 0
+        while start < len(buffers) and runs < 50:
+            p = subprocess.run([str(exe), str(start), "q"], input=bytes(blob), capture_output=True, timeout=timeout, env=env)
+            runs += 1
+            begins = [int(l[6:]) for l in p.stdout.decode(errors="replace").splitlines() if l.startswith("BEGIN ")]
+            if p.returncode == 0 or not begins:
+                break
+            start = begins[-1] + 1                      # the process died inside a buffer (no sanitizer here): continue after it
+        raws = [str(x) for x in tmp.glob("*.profraw")]
+        if not raws:
+            return {"error": "no profile written"}
+        subprocess.run(["llvm-profdata", "merge", "-sparse", *raws, "-o", str(tmp / "m.profdata")], check=True, capture_output=True, timeout=300)
+        ex = subprocess.run(["llvm-cov", "export", "-format=lcov", f"-instr-profile={tmp / 'm.profdata'}", str(exe)], capture_output=True, text=True, timeout=300)
+        cur, lines, branches = None, {}, {}
+        for l in ex.stdout.splitlines():
+            if l.startswith("SF:"):
+                cur = l[3:]
+            elif cur and cur.endswith("raw_io.cc"):
+                if l.startswith("DA:"):
+                    ln, cnt = l[3:].split(",")[:2]
+                    lines[int(ln)] = lines.get(int(ln), 0) + int(cnt)
+                elif l.startswith("BRDA:"):
+                    ln, blk, br, cnt = l[5:].split(",")
+                    key = (int(ln), blk, br)
+                    branches[key] = branches.get(key, 0) + (0 if cnt == "-" else int(cnt))
+        unc = sorted(k for k, v in lines.items() if v == 0)
+        return {"file": "raw_io.cc", "lines_total": len(lines), "lines_hit": len(lines) - len(unc), "lines_pct": round(100.0 * (len(lines) - len(unc)) / max(1, len(lines)), 1),
+                "branches_total": len(branches), "branches_hit": sum(1 for v in branches.values() if v > 0),
+                "branches_pct": round(100.0 * sum(1 for v in branches.values() if v > 0) / max(1, len(branches)), 1), "uncovered_lines": unc[:60], "inputs": len(buffers)}
+    finally:
+        shutil.rmtree(tmp, ignore_errors=True)
